@@ -193,7 +193,7 @@ def corr_globmatch(model, r, n) -> dict:
     return acc.result()
 
 
-TOKENS = ["foo", ".", "..", "./a", "../a", "a/b", "a//b/", "/abs/x", "/abs/../y", "~", "~/x", "~bob", "~bob/x", "$HOME", "${X}/a", "http://x/y", "a://b", "-v", "", "a/./b", "a/../../b", "./", "x/", "//x", "/", "~/", "~/../x", "/tmp//a/", "*", "src/*.py", "dir/**"]
+TOKENS = ["foo", ".", "..", "./a", "../a", "a/b", "a//b/", "/abs/x", "/abs/../y", "~", "~/x", "~bob", "~bob/x", "$HOME", "${X}/a", "http://x/y", "a://b", "/tmp/x://../../etc/p", "x://../y", "-v", "", "a/./b", "a/../../b", "./", "x/", "//x", "/", "~/", "~/../x", "/tmp//a/", "*", "src/*.py", "dir/**"]
 
 
 def corr_paths(model, r, n) -> dict:
@@ -209,6 +209,7 @@ def corr_paths(model, r, n) -> dict:
         table = []
         with record_resolve(table):
             k = C._classify_token(tok)
+            kp = C._classify_token(tok, is_path=True)
             e0 = C._expand_token(tok, Path(cwd), force_path=False)
             e1 = C._expand_token(tok, Path(cwd), force_path=True)
             npth = C._normalize_path(tok, Path(cwd))
@@ -218,6 +219,7 @@ def corr_paths(model, r, n) -> dict:
         reps = model.batch(
             [
                 {"op": "classify_token", "t": tok},
+                {"op": "classify_token", "t": tok, "is_path": True},
                 {"op": "expand_token", "env": env, "t": tok, "cwd": cwd, "force": False},
                 {"op": "expand_token", "env": env, "t": tok, "cwd": cwd, "force": True},
                 {"op": "normpath", "env": env, "path": tok, "cwd": cwd},
@@ -225,7 +227,7 @@ def corr_paths(model, r, n) -> dict:
                 {"op": "normpattern", "env": env, "pattern": "cmd " + tok + " x", "cwd": cwd},
             ]
         )
-        acc.case([tok, cwd], [k, e0, e1, npth, nrp, npat], reps, tag=k, sample={"token": tok, "cwd": cwd, "kind": k, "normalized_path": npth})
+        acc.case([tok, cwd], [k, kp, e0, e1, npth, nrp, npat], reps, tag=k, sample={"token": tok, "cwd": cwd, "kind": k, "normalized_path": npth})
         # the lexical resolver equals pathlib in trees without symlinks on the way
         for joined, resolved in table:
             if joined.startswith("/nonexistent") or joined.startswith("/tmp/probe"):
